@@ -37,6 +37,11 @@ func propGen(prop, tier string, idx int) GenOpts {
 		o.NoMultiAs = false
 		conc(1, 3)
 		o.WOp = [8]int{0, 10, 4, 4, 1, 0, 0, 0}
+		if idx%4 == 1 {
+			// one registration visible under several interface aliases / group memberships
+			o.PAs, o.PAs2, o.PGroup, o.PName = 450, 600, 450, 150
+			o.WOp = [8]int{0, 8, 8, 4, 1, 0, 0, 0}
+		}
 		if idx%4 == 3 {
 			// constructors returning nil for all or one of their outputs, failing Close methods:
 			// neither excuses a singleton constructor from running exactly once
@@ -127,6 +132,7 @@ func propGen(prop, tier string, idx int) GenOpts {
 		o.WOp = [8]int{0, 10, 3, 5, 3, 1, 0, 0}
 		o.FaultBudget = [4]int{4, 4, 2, 0}
 		o.WFault = [4]int{3, 2, 1, 0}
+		o.PBuildCancel = 120
 	case "C11":
 		o.PDisposable = 900
 		conc(1, 1)
@@ -154,6 +160,7 @@ func propGen(prop, tier string, idx int) GenOpts {
 		o.WOp = [8]int{0, 8, 2, 5, 6, 2, 0, 0}
 		o.FaultBudget = [4]int{2, 4, 3, 2}
 		o.WFault = [4]int{0, 0, 0, 5}
+		o.PBuildCancel = 80
 	case "C13":
 		conc(2, 4)
 		if seq {
@@ -185,6 +192,7 @@ func propGen(prop, tier string, idx int) GenOpts {
 		o.WOp = [8]int{0, 10, 4, 4, 1, 0, 0, 0}
 		o.PVoid = 150
 		o.NoOptionalFail = false
+		o.PBuildCancel = 120
 		if idx%4 == 3 {
 			// constructions overlapping a Close whose late instance fails to close: the error keeps its class
 			conc(2, 3)
